@@ -169,24 +169,12 @@ Proof.
   split; [vm_compute; reflexivity|]. apply FR_le_by_compute. vm_compute. reflexivity.
 Qed.
 
-(** H-STABLE-DET for the repaired function, in sign form, NO guard on the inputs: with any
-    multiplier >= K_STABLE and any lower limit >= K_STABLE * 2^-500 a non-zero answer is the sign
-    of the exact determinant. *)
-Definition H_STABLE_DET : Prop := forall M Mmin a b c,
-  ffinite M = true -> D2R K_STABLE <= FR M -> ffinite Mmin = true -> D2R K_STABLE_MIN <= FR Mmin ->
-  unit_pt a -> unit_pt b -> unit_pt c ->
-  stable_with M Mmin a b c <> 0%Z -> stable_with M Mmin a b c = sgnR (detR a b c).
-(** the same for the function before the repair: FALSE ([H_STABLE_DET_OLD_refuted] below) *)
+(** H-STABLE-DET for the repaired function is discharged in Proofs/C02_StableDet.v
+    ([stable_sound_closed]); the constants enter through [stable_const_ok] / [stable_consts_ok]. *)
+(** the statement for the function BEFORE the repair: FALSE ([H_STABLE_DET_OLD_refuted] below) *)
 Definition H_STABLE_DET_OLD : Prop := forall M a b c, ffinite M = true -> D2R K_STABLE <= FR M ->
   unit_pt a -> unit_pt b -> unit_pt c ->
   stable_old_with M a b c <> 0%Z -> stable_old_with M a b c = sgnR (detR a b c).
-
-Theorem stable_sound : H_STABLE_DET -> forall a b c, unit_pt a -> unit_pt b -> unit_pt c ->
-  s2_stableSign a b c <> 0%Z -> s2_stableSign a b c = sgnR (detR a b c).
-Proof.
-  intros H a b c Ua Ub Uc. rewrite stable_is. destruct stable_const_ok as (FM & LM & FN & LN).
-  now apply H.
-Qed.
 
 (** * triageSignDotProd *)
 Definition fdot (a b : s2_Point) : PrimFloat.float := r3_Vector_Dot (s2_Point_Vector a) (s2_Point_Vector b).
@@ -226,13 +214,23 @@ Proof.
 Qed.
 
 (** * CompareDistances, CompareDistance, SignDotProd *)
-Definition H_TRIAGE_COS : Prop := forall x a b, unit_pt x -> unit_pt a -> unit_pt b ->
+(** The distance predicates need MORE than the library's IsUnit: their error terms assume points
+    normalized as r3.Vector.Normalize leaves them. [norm_pt]: | |p|^2 - 1 | <= 2^-50 (= 8u, i.e.
+    the norm within 4u = 2 DBL_EPSILON of 1, the assumption of the C++ error analysis). With only
+    [unit_pt] (IsUnit, 5e-14) the statements are FALSE: see [compare_distances_isunit_refuted]
+    in Proofs/C02_DistRefuted.v. *)
+Definition norm_pt (p : s2_Point) : Prop := finite p /\ Rabs (norm2R p - 1) <= / 2 ^ 50.
+Lemma norm_unit p : norm_pt p -> unit_pt p.
+Proof. intros [F H]. split; [exact F|]. lra. Qed.
+Lemma norm_norm_pos p : norm_pt p -> 0 < norm2R p.
+Proof. intros H. apply unit_norm_pos. now apply norm_unit. Qed.
+Definition H_TRIAGE_COS : Prop := forall x a b, norm_pt x -> norm_pt a -> norm_pt b ->
   s2_triageCompareCosDistances x a b <> 0%Z ->
   s2_triageCompareCosDistances x a b = cmp_distances_R x a b.
 
 (** the sin^2 comparison is used (and only claimed) where the cos triage was undecided and
     |cos AX| > 1/sqrt 2: increasing below 45 degrees, decreasing above 135 *)
-Definition H_TRIAGE_SIN2 : Prop := forall x a b, unit_pt x -> unit_pt a -> unit_pt b ->
+Definition H_TRIAGE_SIN2 : Prop := forall x a b, norm_pt x -> norm_pt a -> norm_pt b ->
   s2_triageCompareCosDistances x a b = 0%Z ->
   s2_triageCompareSin2Distances x a b <> 0%Z ->
   let cosAX := r3_Vector_Dot (s2_Point_Vector a) (s2_Point_Vector x) in
@@ -262,11 +260,11 @@ Proof.
 Qed.
 
 Theorem compare_distances_spec : H_TRIAGE_COS -> H_TRIAGE_SIN2 -> forall x a b,
-  unit_pt x -> unit_pt a -> unit_pt b ->
+  norm_pt x -> norm_pt a -> norm_pt b ->
   compare_distances x a b = exact_compare_distances_full x a b.
 Proof.
   intros HC HS2 x a b Ux Ua Ub.
-  pose proof (unit_norm_pos a Ua) as Na. pose proof (unit_norm_pos b Ub) as Nb.
+  pose proof (norm_norm_pos a Ua) as Na. pose proof (norm_norm_pos b Ub) as Nb.
   assert (Hnz : forall s, s <> 0%Z -> s = cmp_distances_R x a b -> s = exact_compare_distances_full x a b).
   { intros s Hs E. unfold exact_compare_distances_full. cbv zeta.
     rewrite exact_compare_distances_spec by assumption. rewrite <- E.
@@ -289,14 +287,14 @@ Proof.
 Qed.
 
 Theorem compare_distances_antisym : H_TRIAGE_COS -> H_TRIAGE_SIN2 -> forall x a b,
-  unit_pt x -> unit_pt a -> unit_pt b -> compare_distances x b a = (- compare_distances x a b)%Z.
+  norm_pt x -> norm_pt a -> norm_pt b -> compare_distances x b a = (- compare_distances x a b)%Z.
 Proof.
   intros HC HS2 x a b Ux Ua Ub. rewrite !compare_distances_spec by assumption.
   apply exact_compare_full_antisym; [apply Ua|apply Ub].
 Qed.
 
 Theorem compare_distances_zero_iff : H_TRIAGE_COS -> H_TRIAGE_SIN2 -> forall x a b,
-  unit_pt x -> unit_pt a -> unit_pt b -> (compare_distances x a b = 0%Z <-> s2_Point_eqb a b = true).
+  norm_pt x -> norm_pt a -> norm_pt b -> (compare_distances x a b = 0%Z <-> s2_Point_eqb a b = true).
 Proof.
   intros HC HS2 x a b Ux Ua Ub. rewrite compare_distances_spec by assumption.
   rewrite exact_compare_full_zero_iff by (try apply Ua; apply Ub).
@@ -305,19 +303,19 @@ Qed.
 
 (** when the two distances differ, the answer is the exact comparison *)
 Theorem compare_distances_exact : H_TRIAGE_COS -> H_TRIAGE_SIN2 -> forall x a b,
-  unit_pt x -> unit_pt a -> unit_pt b -> cmp_distances_R x a b <> 0%Z ->
+  norm_pt x -> norm_pt a -> norm_pt b -> cmp_distances_R x a b <> 0%Z ->
   compare_distances x a b = cmp_distances_R x a b.
 Proof.
   intros HC HS2 x a b Ux Ua Ub Hne. rewrite compare_distances_spec by assumption.
   unfold exact_compare_distances_full. cbv zeta.
-  rewrite exact_compare_distances_spec by (now apply unit_norm_pos).
+  rewrite exact_compare_distances_spec by (now apply norm_norm_pos).
   destruct (Z.eqb_spec (cmp_distances_R x a b) 0); [contradiction|reflexivity].
 Qed.
 
 Definition valid_limit (r : PrimFloat.float) : Prop := ffinite r = true /\ 0 <= FR r <= 4.
-Definition H_TRIAGE_COS1 : Prop := forall x y r, unit_pt x -> unit_pt y -> valid_limit r ->
+Definition H_TRIAGE_COS1 : Prop := forall x y r, norm_pt x -> norm_pt y -> valid_limit r ->
   s2_triageCompareCosDistance x y r <> 0%Z -> s2_triageCompareCosDistance x y r = cmp_distance_R x y r.
-Definition H_TRIAGE_SIN21 : Prop := forall x y r, unit_pt x -> unit_pt y -> valid_limit r ->
+Definition H_TRIAGE_SIN21 : Prop := forall x y r, norm_pt x -> norm_pt y -> valid_limit r ->
   s2_triageCompareCosDistance x y r = 0%Z -> PrimFloat.ltb r ca45Degrees = true ->
   s2_triageCompareSin2Distance x y r <> 0%Z -> s2_triageCompareSin2Distance x y r = cmp_distance_R x y r.
 
@@ -333,16 +331,16 @@ Proof.
 Qed.
 
 Theorem compare_distance_spec : H_TRIAGE_COS1 -> H_TRIAGE_SIN21 -> forall x y r,
-  unit_pt x -> unit_pt y -> valid_limit r -> compare_distance x y r = cmp_distance_R x y r.
+  norm_pt x -> norm_pt y -> valid_limit r -> compare_distance x y r = cmp_distance_R x y r.
 Proof.
   intros HC HS2 x y r Ux Uy Vr. rewrite compare_distance_unfold. cbv zeta.
   destruct (Z.eqb_spec (s2_triageCompareCosDistance x y r) 0) as [E1|E1]; cbn [negb].
   2:{ now apply HC. }
   destruct (PrimFloat.ltb r ca45Degrees) eqn:L.
   - destruct (Z.eqb_spec (s2_triageCompareSin2Distance x y r) 0) as [E2|E2]; cbn [negb].
-    + apply exact_compare_distance_spec; now apply unit_norm_pos.
+    + apply exact_compare_distance_spec; now apply norm_norm_pos.
     + now apply HS2.
-  - cbn. apply exact_compare_distance_spec; now apply unit_norm_pos.
+  - cbn. apply exact_compare_distance_spec; now apply norm_norm_pos.
 Qed.
 
 Theorem sign_dot_prod_spec : H_TRIAGE_DOT -> forall a b, finite a -> finite b ->
